@@ -737,7 +737,6 @@ def oracle_history(files, cmds, obs, exited_at, snaps, fault=None, final=None, n
     text[curp[0]] = o0['text']
     state[curp[0]] = 0
     prev_cur = curp[0]
-    unmarked = set()                                # buffers a REFUSED :xa has written without recording it (finding, see below)
 
     def dirty(p):
         if content.get(p, b'') is None:             # ghost disk unknown (see 'mixed'): neither a refusal nor an allowance is demanded for p
@@ -793,8 +792,7 @@ def oracle_history(files, cmds, obs, exited_at, snaps, fault=None, final=None, n
             elif all(saved_state_before.values()):
                 # (under the shim: a wq / x whose own write part reports failure -- e.g. "file changed" after an earlier failed save has
                 # stamped the file -- stays because of that failure; more refusal, never less: no exit is demanded then)
-                # (without the shim the same can happen after a REFUSED :xa: the buffers it wrote keep their old time stamp -- the finding of round j --
-                # and a later wq of one of them is refused as "file changed" once the clock second has moved on)
+                # (with or without the shim: a failed write part is a refusal, never an exit)
                 wfail = ctext in ('wq', 'x') and k < len(obs) and b'write failed' in obs[k]['cmdout']
                 if not gone and not wfail:
                     return (k, ':q refused although every buffer is in its saved state', 'editor exits', 'still alive: ' + repr(obs[k]['cmdout'] if k < len(obs) else b''))
@@ -855,26 +853,13 @@ def oracle_history(files, cmds, obs, exited_at, snaps, fault=None, final=None, n
                 for j, n in enumerate(names):
                     sn = snaps.get('snap_%d_%d' % (k, j))
                     if sn is not None:
-                        if n in unmarked:
-                            # judged again once the buffer is written whole to its own path by a command that records it
-                            if prev_cur == n and (kind == 'w' or (kind == 'q' and ctext in ('wq', 'x'))) and ctext_full in ('w', 'w!', 'wq', 'x') and \
-                                    re.search(rb'"' + re.escape(n.encode()) + rb'"  \[=\d+\]  \[w\]', o['cmdout']):
-                                unmarked.discard(n)
-                            else:
-                                continue
                         content[n] = sn
-            # FINDING on the unchanged tree (design.d/C02.md "Round i/j", fixes/C02-xa-saved-unmarked.patch): the loop of a REFUSED :xa has
-            # written the buffers in front of the refusing slot with lbuf_save but recorded neither lbuf_saved nor the mtime.  Such a
-            # buffer -- not the current one, its text differed from its file, its file holds its text now -- reports clean after one undo
-            # while the file holds the newer text.  Narrow classifier: exactly these buffers are not judged (ghost disk unknown) until
-            # a whole write to the own path records the save; counted.  An :xa that EXITS is judged in full above.
+            # a REFUSED :xa has written the buffers in front of the refusing slot and (since fix 37c81b2) recorded it: a buffer whose text
+            # differed from its file before and whose file holds its text now is at its saved position (its flag must be off from here on)
             if kind == 'q' and ctext == 'xa':
                 for p in sorted(text):
-                    if p and p != prev_cur and dirty_before.get(p) and content.get(p) is not None and as_text(content[p]) == text[p]:
-                        unmarked.add(p)
-                        content[p] = None
-                        if notes is not None:
-                            notes['xa_unmarked'] = k
+                    if p and dirty_before.get(p) and content.get(p) is not None and as_text(content[p]) == text[p]:
+                        state[p] = 0
         else:
             for j, n in enumerate(names):
                 sn = snaps.get('snap_%d_%d' % (k, j))
@@ -1387,8 +1372,6 @@ def run(ctx):
             report_hist(files, cmds, r, nn)
         questions += [(q, a, files, cmds, k, nn) for (q, a, k) in r['qs']]
         aquestions += [(q, a, files, cmds, k, nn) for (q, a, k) in r.get('aqs', [])]
-        if r.get('notes', {}).get('xa_unmarked'):
-            res.count('histories in which a buffer written by a REFUSED :xa is not judged until its next whole write (finding: the save is not recorded, fixes/C02-xa-saved-unmarked.patch)')
     res.extra['histories_with_a_refusal'] = nref
     if hs:
         res.sample({'kind': 'history', 'files': sorted(hs[0][0]), 'cmds': [c[1] for c in hs[0][1]]})
